@@ -438,7 +438,8 @@ impl PacketContents {
         // The packet header counts the chunks in a single byte.
         self.num_chunks < u8::MAX
             // current size + chunk header + chunk length
-            && self.data.len() + protocol::chunk_header_size(vital) + data.len() <= MAX_PAYLOAD
+            && self.data.len() + protocol::chunk_header_size(vital) + data.len()
+                <= MAX_PAYLOAD + protocol::CHUNK_HEADER_SIZE_VITAL
     }
     fn clear(&mut self) {
         *self = PacketContents::new();
